@@ -126,8 +126,9 @@ CONFIG["C05"] = dict(
 )
 
 CONFIG["C09"] = dict(
+    modules=["CanVerif.Props.C09", "CanVerif.Props.C09Mono"],
     level_text="The conversion is modelled over a software binary64 (Model/SoftFloat.lean: exact rational results rounded once to nearest-even; Model/Phys.lean: ToPhysical/FromPhysical as written), which is compared bit-for-bit with the hardware on every run (all pairs of special values, random operands, every operation and conversion used). Kernel-checked theorems (Props/C09.lean) prove, for every signal and every non-NaN input of the model, that the result of physical->raw lies between the raw bounds (saturation) and that clamping, saturation and the min/max steps are monotone; the five clauses (linear rule, encodable result, monotonicity in both factor signs, both round-trip bounds) are also evaluated as an oracle on the implementation's outputs for lengths 1..52, decimal and binary scales, negative factors, ranges present/absent/one-sided, boundary/random raws and physical values including +-Inf, subnormals and huge magnitudes.",
-    level_note="Partial proof: monotonicity of the full pipeline and the round-trip bounds are not proved over the rounding model (they need a rounding-error analysis; stated in DESIGN.md C09); they are decided per run by the oracle. Hardware float64 arithmetic is modelled, not verified (bit-exact comparison each run; no FMA fusion on amd64).",
+    level_note="Proof for the software-float model: the linear rule with clamp and saturation, saturation between the raw bounds, and monotonicity of physical->raw for every finite offset and finite non-zero factor and all non-NaN arguments (C09_fromPhysical_monotone: roundF64 is monotone in the exact rational, add/sub/div are correctly rounded, keys order like values). Not proved: the two round-trip bounds (decided per run by the oracle; finding F3 shows the last clause fails as stated). Mathlib tactics are used in the proof modules Lemmas/RoundMono, FloatVal, FloatMono only. Hardware float64 arithmetic is modelled (compared bit-for-bit on every run).",
     level="proof",
     trivial=r"^(nan|0{16}|0{16} enc=1)$",
     rule="signals x raw/physical values from harness/internal/ops/phys.go; non-trivial = result is neither NaN nor +0",
